@@ -216,3 +216,81 @@ def op_permute(g: nx.Graph, seed: float):
 
 def op_copy(g: nx.Graph):
     return " ".join(["COPY"] + P.enc_graph(g)), P.show_graph(g.copy())
+
+
+# ---------- parser / readers / writer ----------
+from tucan.parser import parser as TP
+from tucan.io import molfile_reader as MR, molfile_v3000_reader as V3, molfile_v2000_reader as V2, molfile_writer as MW
+
+
+def op_parse(text: str):
+    info = {}
+
+    def run():
+        g = TP.graph_from_tucan(text)
+        info["graph"] = g
+        return P.show_graph(g)
+    return "PARSE " + P.esc(text), guarded(run), info
+
+
+def op_v3000(lines: list[str]):
+    def run():
+        a, b = V3.graph_attributes_from_molfile_v3000(list(lines))
+        return P.fields(P.show_atom_dict(a), P.show_bond_dict(b))
+    return " ".join(["V3000"] + P.enc_str_list(lines)), guarded(run)
+
+
+def op_v2000(lines: list[str]):
+    def run():
+        a, b = V2.graph_attributes_from_molfile_v2000(list(lines))
+        return P.fields(P.show_atom_dict(a), P.show_bond_dict(b))
+    return " ".join(["V2000"] + P.enc_str_list(lines)), guarded(run)
+
+
+def op_moltext(text: str):
+    info = {}
+
+    def run():
+        g = MR.graph_from_molfile_text(text)
+        info["graph"] = g
+        return P.show_graph(g)
+    return "MOLTEXT " + P.esc(text), guarded(run), info
+
+
+def op_splice(lines: list[str]):
+    return " ".join(["SPLICE"] + P.enc_str_list(lines)), guarded(
+        lambda: P.show_str_list(V3._concat_lines_with_dash(list(lines))))
+
+
+def op_tokenize(lines: list[str]):
+    return " ".join(["TOKENIZE"] + P.enc_str_list(lines)), guarded(
+        lambda: "[" + ",".join(P.show_str_list(l) for l in V3._tokenize_lines(list(lines))) + "]")
+
+
+def op_wrap(line: str):
+    def run():
+        out = []
+        MW._add_v30_line(out, line)
+        return P.show_str_list(out)
+    return "WRAP " + P.esc(line), guarded(run)
+
+
+def op_write(g: nx.Graph):
+    enc = P.enc_graph(g, P._coord6)
+    info = {}
+
+    def run():
+        text = MW.graph_to_molfile(g)
+        info["text"] = text
+        lines = text.split("\n")
+        if len(lines) > 1:
+            lines[1] = "<HEADER>"
+        return P.show_str_list(lines)
+    return " ".join(["WRITE"] + enc), guarded(run), info
+
+
+def op_attrline(line: str, atom_attrs: dict):
+    def run():
+        r = V2._parse_atom_value_assignments(line, atom_attrs)
+        return "[" + ",".join(f"{a}:{b}" for a, b in r) + "]"
+    return " ".join(["ATTRLINE", P.esc(line)] + P.enc_atom_dict(atom_attrs)), guarded(run)
